@@ -18,7 +18,8 @@ From SV Require Import Model.Seq32 Model.Assembler Model.TcpBuf Model.TcpTypes M
 From SV Require Import Proofs.TcpSendBase Proofs.TcpSendInv Proofs.TcpSendDisp Proofs.TcpSendDisp2
                        Proofs.TcpSendDisp3 Proofs.TcpSendTrace.
 From SV Require Import Proofs.TcpLiveBase Proofs.TcpLiveProofs Proofs.TcpLiveMore.
-From SV Require Import Proofs.TcpBurstBase Proofs.TcpBurstStep Proofs.TcpBurstEmit Proofs.TcpBurstProofs.
+From SV Require Import Model.EgressLoop Proofs.EgressLoopProofs.
+From SV Require Import Proofs.TcpBurstBase Proofs.TcpBurstStep Proofs.TcpBurstEmit Proofs.TcpBurstProofs Proofs.TcpBurstLoop.
 
 Definition bx_cx (now mtu : Z) : ctx := mkCtx now mtu 167772161 7 1000.
 Definition bx_ip : ip_repr := mkIp 167772162 167772161 64 0.
@@ -214,4 +215,35 @@ Proof.
   exists (bx_cx 2000 52), ex_mtu. split; [exact ex_mtu_core|].
   split; [vm_compute; exact I|]. split; [reflexivity|]. split; [vm_compute; reflexivity|].
   intros n. exists ex_mtu. destruct ex_mtu_fix as (p & tags & H). exact (fix_burst _ _ _ _ H n).
+Qed.
+
+(* ------------------------------------------------------------------------------------------ *)
+(* several sockets sharing one poll                                                             *)
+(* ------------------------------------------------------------------------------------------ *)
+(* environment = the device's transmit budget; a refused emit is an exhausted device *)
+Definition bud_emit (b : nat) (_ : socket) : bool * nat :=
+  match b with O => (false, O) | S b' => (true, b') end.
+Definition bud_exhausted (_ : nat) (_ : socket) : bool := true.
+Definition set3 : list socket := [ex1; ex_s0; ex1].
+
+(* budget left, emitting passes, the sockets' measures afterwards *)
+Definition set3_poll (budget : nat) : option (nat * nat * list Z) :=
+  match poll_loop2 nat socket (tcp_dispatch2 nat bud_emit bud_exhausted (bx_cx 1000 1500))
+                   (fun b => b) 100 budget set3 with
+  | Some (b', r, n) => Some (b', n, map (mu (bx_cx 1000 1500)) r)
+  | None => None
+  end.
+
+Example socket_set_example :
+  Forall (sock_inv (bx_cx 1000 1500)) set3 /\
+  sum_bound (bx_cx 1000 1500) set3 = 28%nat /\
+  (* a generous device: both connected sockets send their five segments, interleaved pass by pass *)
+  set3_poll 100 = Some (90%nat, 5%nat, [1; 0; 1]) /\
+  (* three transmit tokens: the second pass breaks at the exhausted device, the third emits nothing *)
+  set3_poll 3 = Some (0%nat, 2%nat, [4; 0; 5]).
+Proof.
+  split.
+  { unfold set3. constructor; [right; exact ex1_binv|]. constructor; [left; vm_compute; reflexivity|].
+    constructor; [right; exact ex1_binv|constructor]. }
+  split; [vm_compute; reflexivity|]. split; vm_compute; reflexivity.
 Qed.
